@@ -830,7 +830,10 @@ class ArrayOf(DataType):
         self.check_type(value)
         try:
             if previous:
-                return tuple(self.members.validate(v, p) for v, p in zip(value, previous))
+                # previous might be shorter or longer than value
+                prevlist = list(previous)[:len(value)]
+                prevlist.extend([None] * (len(value) - len(prevlist)))
+                return tuple(self.members.validate(v, p) for v, p in zip(value, prevlist))
             return tuple(self.members.validate(v) for v in value)
         except Exception as e:
             errcls = RangeError if isinstance(e, RangeError) else WrongTypeError
